@@ -135,31 +135,37 @@ Record fext (f f' : frac) : Prop := mkFext {
   fx_blocks : exists more, f_blocks f' = f_blocks f ++ more;
   fx_pos : forall x p, lookup_pos x (f_pos f) = Some p -> lookup_pos x (f_pos f') = Some p;
   fx_has : forall t, has_tok t (f_toks f) = true -> has_tok t (f_toks f') = true;
-  fx_post : forall t lid, In lid (post f t) -> In lid (post f' t)
+  fx_post : forall t lid, In lid (post f t) -> In lid (post f' t);
+  fx_range : range_le f f'
 }.
 
 Lemma fext_refl f : fext f f.
-Proof. constructor; auto; exists []; rewrite app_nil_r; auto. Qed.
+Proof. constructor; auto; try (exists []; rewrite app_nil_r; auto); apply range_le_refl. Qed.
 
 Lemma fext_trans a b c : fext a b -> fext b c -> fext a c.
 Proof.
-  intros [[m1 L1] [n1 B1] P1 H1 Q1] [[m2 L2] [n2 B2] P2 H2 Q2]. constructor; auto.
+  intros [[m1 L1] [n1 B1] P1 H1 Q1 R1] [[m2 L2] [n2 B2] P2 H2 Q2 R2]. constructor; auto.
   - exists (m1 ++ m2). rewrite L2, L1, app_assoc. auto.
   - exists (n1 ++ n2). rewrite B2, B1, app_assoc. auto.
+  - eapply range_trans; eauto.
 Qed.
 
 Lemma fext_eq f f' :
-  f_ldocs f' = f_ldocs f -> f_blocks f' = f_blocks f -> f_pos f' = f_pos f -> f_toks f' = f_toks f -> fext f f'.
+  f_ldocs f' = f_ldocs f -> f_blocks f' = f_blocks f -> f_pos f' = f_pos f -> f_toks f' = f_toks f ->
+  f_from f' = f_from f -> f_to f' = f_to f -> f_total f' = f_total f -> fext f f'.
 Proof.
-  intros A B C D. constructor; unfold post; rewrite ?A, ?B, ?C, ?D; auto; exists []; rewrite app_nil_r; auto.
+  intros A B C D E1 E2 E3. constructor; unfold post, range_le; rewrite ?A, ?B, ?C, ?D, ?E1, ?E2, ?E3; auto;
+    try (exists []; rewrite app_nil_r; auto). repeat split; auto; apply N.le_refl.
 Qed.
 
 Lemma fext_toks f f' :
   f_ldocs f' = f_ldocs f -> f_blocks f' = f_blocks f -> f_pos f' = f_pos f ->
+  f_from f' = f_from f -> f_to f' = f_to f -> f_total f' = f_total f ->
   (forall t, has_tok t (f_toks f) = true -> has_tok t (f_toks f') = true) ->
   (forall t lid, In lid (post f t) -> In lid (post f' t)) -> fext f f'.
 Proof.
-  intros A B C D E. constructor; rewrite ?A, ?B, ?C; auto; exists []; rewrite app_nil_r; auto.
+  intros A B C E1 E2 E3 D E. constructor; unfold range_le; rewrite ?A, ?B, ?C, ?E1, ?E2, ?E3; auto;
+    try (exists []; rewrite app_nil_r; auto). repeat split; auto; apply N.le_refl.
 Qed.
 
 Lemma lookup_pos_app_l x l l' p : lookup_pos x l = Some p -> lookup_pos x (l ++ l') = Some p.
@@ -233,19 +239,20 @@ Proof.
     + destruct (_ && _ && _)%bool; simpl; [|apply fext_refl].
       match goal with |- fext _ (getf (setw (setf ?s ?gg ?h) _ _) _) => apply (K h) end. fx.
     + match goal with |- fext _ (getf (setw (setf ?s ?gg ?h) _ _) _) => apply (K h) end.
-      intros y. constructor; simpl; auto; try (exists []; rewrite app_nil_r; reflexivity). eexists; reflexivity.
+      intros y. constructor; simpl; auto; try (exists []; rewrite app_nil_r; reflexivity); try (eexists; reflexivity); rr.
     + destruct (set_multiple _ _ _ _) as [pos' app] eqn:SM; simpl.
       match goal with |- fext _ (getf (setw (setf ?s ?gg ?h) _ _) _) => apply (getf_fext2 s gg h) end.
-      constructor; simpl; auto; try (exists []; rewrite app_nil_r; reflexivity).
+      constructor; simpl; auto; try (exists []; rewrite app_nil_r; reflexivity); [|rr].
       intros y p Hy. pose proof (set_multiple_ext (w_blk x) (cur_bulk c (N.to_nat w) x) 0 _ y p Hy) as E.
       rewrite SM in E. exact E.
     + match goal with |- fext _ (getf (setw (setf ?s ?gg ?h) _ _) _) => apply (K h) end.
-      intros y. constructor; simpl; auto; try (exists []; rewrite app_nil_r; reflexivity). eexists; reflexivity.
+      intros y. constructor; simpl; auto; try (exists []; rewrite app_nil_r; reflexivity); try (eexists; reflexivity); rr.
     + match goal with |- fext _ (getf (setw (setf ?s ?gg ?h) _ _) _) => apply (K h) end. fx.
     + destruct (put_order _ _); simpl; apply fext_refl.
     + destruct (Nat.ltb _ _); simpl;
         match goal with |- fext _ (getf (setw (setf ?s ?gg ?h) _ _) _) => apply (K h) end; fx.
-    + match goal with |- fext _ (getf (setw (setf ?s ?gg ?h) _ _) _) => apply (K h) end. fx.
+    + match goal with |- fext _ (getf (setw (setf ?s ?gg ?h) _ _) _) => apply (K h) end.
+      intros y. constructor; simpl; auto; try (exists []; rewrite app_nil_r; reflexivity). rr.
     + match goal with |- fext _ (getf (setw (setf ?s ?gg ?h) _ _) _) => apply (K h) end. fx.
   - unfold step_snap. destruct (nth_error _ _) as [x|]; simpl; [|apply fext_refl]. destruct (r_op x); apply fext_refl.
   - unfold step_sb. destruct (nth_error (rs st) _) as [x|]; simpl; [|apply fext_refl].
@@ -1136,8 +1143,8 @@ Proof.
     + (* after-ids: evaluate the leaves *)
       destruct (R2 (or_introl eq_refl)) as [NL LN].
       destruct (advance_sinv c st r g q a b m n x (leaves (fst (fst q))) [] [] SI EX (R1 ltac:(discriminate)) NL LN eq_refl (Forall2_nil _)) as [A1 A2].
-      split; auto. split; [|intros; discriminate].
-      intros x0 g0 q0 pc0 a0 b0 m0 n0 s0 p0 ids H0 H1 H2. inversion H0; subst x0. inversion H1; subst. apply A2; auto.
+      split; auto. split; [|intros x0' g0' fl0' nb0' bd' H0' H1' H2'; inversion H0'; subst x0'; rewrite OP in H1'; discriminate].
+      intros x0 g0 q0 pc0 a0 b0 m0 n0 s0 p0 ids H0 H1 H2. inversion H0; subst x0. rewrite OP in H1. inversion H1; subst. apply A2; auto.
     + (* one leaf *)
       destruct p as [|t rest]; simpl.
       { split; auto. split; intros; discriminate. }
@@ -1165,8 +1172,8 @@ Proof.
       * rewrite <- app_assoc. exact LV.
       * apply Forall2_app; [|constructor; auto].
         eapply Forall2_impl; [|exact F2]. intros t' s' H. eapply leaf_ok_mono; eauto.
-      * split; auto. split; [|intros; discriminate].
-        intros x0 g0 q0 pc0 a0 b0 m0 n0 s0 p0 ids H0 H1 H2. inversion H0; subst x0. inversion H1; subst.
+      * split; auto. split; [|intros x0' g0' fl0' nb0' bd' H0' H1' H2'; inversion H0'; subst x0'; rewrite OP in H1'; discriminate].
+        intros x0 g0 q0 pc0 a0 b0 m0 n0 s0 p0 ids H0 H1 H2. inversion H0; subst x0. rewrite OP in H1. inversion H1; subst.
         eapply sound_res_blocks; [|apply A2; exact H2]. symmetry. exact B1.
   - (* fetch *)
     assert (FK : fok c (getf st g)) by (apply getf_fok; auto).
@@ -1174,9 +1181,181 @@ Proof.
     { eapply (SInv_set_op c _ r RIdle x); [apply SInv_set_rl; auto| exact EX | exact I]. }
     destruct (existsb _ _) eqn:EB; simpl; (split; [exact SS|]); (split; [intros; discriminate|]).
     + intros; discriminate.
-    + intros x0 g0 fl0 nb0 bodies H0 H1 H2. inversion H0; subst x0. inversion H1; subst. inversion H2; subst. clear H0 H1 H2.
-      clear EB. induction fl0; simpl; constructor; auto.
-      destruct (fetch_one c (getf st g0) nb0 a) eqn:FO.
+    + intros x0 g0 fl0 nb0 bodies H0 H1 H2. inversion H0; subst x0. rewrite OP in H1. inversion H1; subst. inversion H2; subst. clear H0 H1 H2.
+      clear EB OP RK SS. induction fl0 as [|xb fl0 IH]; simpl; [constructor|]. constructor; [|exact IH].
+      destruct (fetch_one c (getf st g0) nb0 xb) eqn:FO.
       * eapply fetch_one_sound; eauto.
       * intros body H; discriminate.
+Qed.
+
+Lemma step_sb_sinv c st r j qn :
+  SInv c st ->
+  SInv c (fst (step_sb c st r j qn)) /\
+  (forall x g q ids, nth_error (rs st) r = Some x -> nth_error (r_snap x) j = Some g -> nth_error (c_qs c) qn = Some q ->
+     snd (step_sb c st r j qn) = ORes ids -> sound_res c (getf st g) q ids).
+Proof.
+  intros SI. unfold step_sb. destruct (nth_error (rs st) r) as [x|] eqn:EX; simpl; [|split; auto; intros; discriminate].
+  destruct (nth_error (c_qs c) qn) as [q|] eqn:EQ; simpl; [|split; auto; intros; discriminate].
+  destruct (r_op x) eqn:OP; simpl; try (split; auto; intros; discriminate).
+  destruct (nth_error (r_snap x) j) as [g|] eqn:EG; simpl; [|split; auto; intros; discriminate].
+  destruct q as [[qq qf] qt].
+  assert (EMP : forall q', sound_res c (getf st g) q' []) by (intros q' y []).
+  assert (FK : fok c (getf st g)) by (apply getf_fok; auto).
+  repeat match goal with |- context [if ?b then _ else _] => destruct b; simpl end;
+    try (split; [exact SI|]; intros x0 g0 q0 ids H0 H1 H2 H3; inversion H0; subst x0; rewrite EG in H1; inversion H1; inversion H2; subst;
+         first [discriminate | inversion H3; subst; first [apply EMP | apply sealed_search_sound; exact FK]]).
+  split; [|intros; discriminate].
+  eapply (SInv_set_op c _ r _ x); [apply SInv_set_rl; auto | exact EX |].
+  simpl. split; [intros H; congruence|]. split; [intros [H|H]; discriminate | intros H; discriminate].
+Qed.
+
+Lemma step_fb_sinv c st r j ids :
+  SInv c st ->
+  SInv c (fst (step_fb c st r j ids)) /\
+  (forall x g bodies, nth_error (rs st) r = Some x -> nth_error (r_snap x) j = Some g ->
+     snd (step_fb c st r j ids) = OFetch bodies -> Forall2 (sound_body c (getf st g)) ids bodies).
+Proof.
+  intros SI. unfold step_fb. destruct (nth_error (rs st) r) as [x|] eqn:EX; simpl; [|split; auto; intros; discriminate].
+  destruct (r_op x) eqn:OP; simpl; try (split; auto; intros; discriminate).
+  destruct (nth_error (r_snap x) j) as [g|] eqn:EG; simpl; [|split; auto; intros; discriminate].
+  assert (FK : fok c (getf st g)) by (apply getf_fok; auto).
+  assert (NONE : Forall2 (sound_body c (getf st g)) ids (map (fun _ => None) ids)).
+  { clear. induction ids; simpl; constructor; auto. intros body H; discriminate. }
+  destruct ids as [|i0 ids'] eqn:EI.
+  { simpl. split; auto. intros x0 g0 bodies H0 H1 H2. inversion H2; subst. constructor. }
+  rewrite <- EI in *. clear EI.
+  repeat match goal with |- context [if ?b then _ else _] => destruct b; simpl end;
+    try (split; [exact SI|]; intros x0 g0 bodies H0 H1 H2; inversion H0; subst x0; rewrite EG in H1; inversion H1; subst;
+         first [discriminate | inversion H2; subst; try exact NONE]).
+  - split; [|intros; discriminate].
+    eapply (SInv_set_op c _ r _ x); [apply SInv_set_rl; auto | exact EX | exact I].
+  - clear NONE. induction ids as [|y ys IH]; simpl; constructor; auto.
+    destruct (intersects (getf st g0) (fst y) (fst y)); simpl; [apply sealed_fetch_sound; auto|intros body H; discriminate].
+Qed.
+
+Lemma step_snap_sinv c st r : SInv c st -> SInv c (fst (step_snap st r)).
+Proof.
+  intros SI. unfold step_snap. destruct (nth_error (rs st) r) as [x|] eqn:EX; simpl; auto.
+  destruct (r_op x) eqn:OP; simpl; auto.
+  apply (SInv_next c st); auto.
+  - intros g; apply fext_refl.
+  - intros g f H. eapply si_f; eauto.
+  - intros r' x' H. simpl in H. apply upd_cases in H as [H|[H1 [x0 [H2 H3]]]]; auto.
+    subst. right. unfold rok; simpl. rewrite EX in H2. inversion H2; subst. rewrite OP. exact I.
+Qed.
+
+(* ---------------------------------------------------------------- maintenance steps *)
+Lemma fok_set_seal c f a s r p : fok c f -> fok c (set_seal f a s r p (f_sdocs f)).
+Proof. intros F. eapply (fok_eq c f); [reflexivity|reflexivity|reflexivity|reflexivity|reflexivity|exact F]. Qed.
+
+Lemma step_m_sinv c st g : SInv c st -> SInv c (fst (step_m c st g)).
+Proof.
+  intros SI. unfold step_m. destruct (nth_error (fracs st) g) as [f|] eqn:EF; simpl; auto.
+  destruct (f_seal f); simpl; auto;
+    repeat match goal with |- context [if ?b then _ else _] => destruct b; simpl; auto end;
+    (apply SInv_setf; auto; [intros; fx|]); intros f0 H; rewrite EF in H; inversion H; subst f0;
+    try (apply fok_set_seal; eapply si_f; eauto).
+  eapply (fok_build c f); try reflexivity. eapply si_f; eauto.
+Qed.
+
+Lemma step_rot_sinv c st : SInv c st -> SInv c (fst (step_rot st)).
+Proof.
+  intros SI. unfold step_rot. destruct (Nat.ltb _ _); simpl; auto.
+  set (st1 := setf st (last_g st) (fun f => set_seal f (f_act f) (f_sld f) (f_ro f) SRot (f_sdocs f))).
+  assert (S1 : SInv c st1).
+  { apply SInv_setf; auto; [intros; fx|]. intros f0 H. apply fok_set_seal. eapply si_f; eauto. }
+  assert (GE : forall g, getf (mkSt (fracs st1 ++ [new_frac]) (shift st) (ws st) (rs st)) g = getf st1 g).
+  { intros g. change (nth g (fracs st1 ++ [new_frac]) new_frac = getf st1 g). apply getf_app_new. }
+  change (SInv c (mkSt (fracs st1 ++ [new_frac]) (shift st) (ws st) (rs st))).
+  apply (SInv_next c st1); auto.
+  - intros g. rewrite GE. apply fext_refl.
+  - intros g f H. change (nth_error (fracs st1 ++ [new_frac]) g = Some f) in H.
+    destruct (Nat.lt_ge_cases g (length (fracs st1))) as [L|L].
+    + rewrite nth_error_app1 in H by auto. eapply si_f; eauto.
+    + rewrite nth_error_app2 in H by auto. remember (g - length (fracs st1)) as k. destruct k as [|k]; simpl in H.
+      * inversion H; subst. apply new_frac_fok.
+      * destruct k; discriminate.
+Qed.
+
+Lemma step_sui_sinv c st : SInv c st -> SInv c (fst (step_sui st)).
+Proof.
+  intros SI. unfold step_sui. destruct (sui_enabled st); simpl; auto.
+  match goal with |- SInv c {| fracs := upd ?gg ?h _ |} =>
+    assert (S1 : SInv c (setf st gg h)) end.
+  { apply SInv_setf; auto.
+    - intros y; destruct (replaced (f_seal y)); fx.
+    - intros f0 H. destruct (replaced (f_seal f0));
+        (eapply (fok_eq c f0); [reflexivity|reflexivity|reflexivity|reflexivity|reflexivity|eapply si_f; eauto]). }
+  eapply (SInv_next c _ _ S1).
+  - intros g. apply fext_refl.
+  - intros g f H. eapply (si_f c _ S1); exact H.
+  - intros w x H. left. exact H.
+  - intros r x H. left. exact H.
+Qed.
+
+Lemma step_sinv c st l : v_all_last (c_ver c) = true -> IInv st -> SInv c st -> SInv c (fst (step c st l)).
+Proof.
+  intros V II SI. destruct l; simpl.
+  - apply step_w_sinv; auto.
+  - apply step_snap_sinv; auto.
+  - apply step_sb_sinv; auto.
+  - apply step_fb_sinv; auto.
+  - apply step_r_sinv; auto.
+  - apply step_rot_sinv; auto.
+  - apply step_m_sinv; auto.
+  - apply step_sui_sinv; auto.
+Qed.
+
+Lemma init_sinv c n : SInv c (init c n).
+Proof.
+  constructor; simpl.
+  - intros g f H. destruct g as [|[|g]]; simpl in H; try discriminate. inversion H; subst. apply new_frac_fok.
+  - intros w x H. apply nth_error_In in H. apply in_map_iff in H as [b [E _]]. subst x. vac.
+  - intros r x H. apply nth_error_In in H. apply repeat_spec in H. subst x. exact I.
+Qed.
+
+Lemma exec_both c ls : v_all_last (c_ver c) = true -> forall st, IInv st -> SInv c st ->
+  IInv (exec c st ls) /\ SInv c (exec c st ls).
+Proof.
+  intros V. induction ls; simpl; intros st II SI; auto. apply IHls; [apply step_iinv | apply step_sinv]; auto.
+Qed.
+
+Lemma reach_sinv c n ls : v_all_last (c_ver c) = true -> SInv c (exec c (init c n) ls).
+Proof. intros V. apply (exec_both c ls V); [apply init_iinv | apply init_sinv]. Qed.
+
+(* ---------------------------------------------------------------- statement used by Props.v *)
+Lemma reader_safe c n ls :
+  v_all_last (c_ver c) = true ->
+  let st := exec c (init c n) ls in
+  forall r x, nth_error (rs st) (N.to_nat r) = Some x ->
+    (forall j qn g q ids,
+        nth_error (r_snap x) (N.to_nat j) = Some g -> nth_error (c_qs c) (N.to_nat qn) = Some q ->
+        snd (step c st (LSB r j qn)) = ORes ids -> sound_res c (getf st g) q ids)
+    /\ (forall g q pc a b m nn s p ids,
+        r_op x = RSearch g q pc a b m nn s p ->
+        snd (step c st (LR r)) = ORes ids -> sound_res c (getf st g) q ids)
+    /\ (forall j ids g bodies,
+        nth_error (r_snap x) (N.to_nat j) = Some g ->
+        snd (step c st (LFB r j ids)) = OFetch bodies -> Forall2 (sound_body c (getf st g)) ids bodies)
+    /\ (forall g fl nb bodies,
+        r_op x = RFetch g fl nb ->
+        snd (step c st (LR r)) = OFetch bodies ->
+        Forall2 (fun xb ob => sound_body c (getf st g) (fst xb) ob) fl bodies).
+Proof.
+  intros V st r x EX. pose proof (reach_sinv c n ls V) as SI. fold st in SI. simpl.
+  split; [|split; [|split]].
+  - intros j qn g q ids H1 H2 H3. destruct (step_sb_sinv c st (N.to_nat r) (N.to_nat j) (N.to_nat qn) SI) as [_ H]. eapply H; eauto.
+  - intros g q pc a b m nn s p ids H1 H2. destruct (step_r_sinv c st (N.to_nat r) SI) as [_ [H _]]. eapply H; eauto.
+  - intros j ids g bodies H1 H2. destruct (step_fb_sinv c st (N.to_nat r) (N.to_nat j) ids SI) as [_ H]. eapply H; eauto.
+  - intros g fl nb bodies H1 H2. destruct (step_r_sinv c st (N.to_nat r) SI) as [_ [_ H]]. eapply H; eauto.
+Qed.
+
+(* the invariant the a28a3f7 repair establishes, in every reachable state: a LID in the all-token's posting is in the
+   posting of every token of its document *)
+Lemma all_token_last c n ls g f lid d t :
+  v_all_last (c_ver c) = true ->
+  nth_error (fracs (exec c (init c n) ls)) g = Some f ->
+  In lid (post f 0%N) -> ldoc f lid d -> memN t (d_toks d) = true -> In lid (post f t).
+Proof.
+  intros V H. pose proof (reach_sinv c n ls V) as SI. eapply fk_all. eapply si_f; eauto.
 Qed.
